@@ -1,7 +1,9 @@
 /- C03 handlers: prime curves. Specification: affine chord-and-tangent arithmetic of Spec/Curve.lean. -/
 import Driver.Util
 import RelicVerif.Spec.Curve
+import RelicVerif.Spec.CurveFast
 import RelicVerif.Gen.EpFormulas
+import RelicVerif.Model.EpMul
 
 namespace Driver.C03
 open Driver Relic.Spec.Curve
@@ -29,7 +31,7 @@ def parseEnv (got : String) : Option Env := do
   some { c := { p := p, a := a, b := b }, g := some (gx, gy), n := n, h := h, endom := kv.lookup "endom" == some "1", kv := kv }
 
 /-- consistency of what the library reports (full parameter checks are C18) -/
-def checkParam (e : Env) : List String :=
+def checkParamBase (e : Env) : List String :=
   (if onCurve e.c e.g then [] else ["generator not on curve"]) ++
   (if mul e.c e.g e.n == none then [] else ["n*G != O"]) ++
   (if e.g != none then [] else ["generator is the identity"])
@@ -80,6 +82,339 @@ def parsePoint (s : String) : Option Point :=
 def fmtPoint : Point → String
   | none => "inf"
   | some (x, y) => natToHex x ++ "," ++ natToHex y
+
+
+/-! ### model column of the scalar multiplications: the loops of Model/MulAlg.lean and Model/EpMul.lean with the recodings of
+    Model/Rec.lean (C buffer sizes as capacities) over Jacobian arithmetic (Spec/CurveFast.lean; proved to represent the affine
+    law in Lemmas/CurveFast.lean), the endomorphism (x, y) ↦ (βx, y), one normalisation at the end -/
+
+section mulModel
+open Relic.Spec.CurveFast (Jac jadd toAffine ofAffine)
+open Relic.Model.MulAlg Relic.Model.EpMul Relic.Model.Rec
+open Relic.Model.EbMul (tabCombs combCol)
+
+def jneg (p : Nat) (j : Jac) : Jac := ⟨j.x, (p - j.y % p) % p, j.z⟩
+def jops (c : Curve) : Ops Jac := ⟨Jac.inf, jadd c, jneg c.p⟩
+def jpsi (c : Curve) (beta : Nat) (j : Jac) : Jac := ⟨beta * j.x % c.p, j.y, j.z⟩
+def jIsInf (c : Curve) (j : Jac) : Bool := j.z % c.p == 0
+
+structure MulCtx where
+  c : Curve
+  n : Nat
+  g : Point
+  endom : Bool
+  beta : Nat
+  v1 : Int × Int × Int
+  v2 : Int × Int × Int
+  width : Nat
+  depth : Nat
+  fpbits : Nat
+  wd : Nat
+
+def parseHexInt' (s : String) : Option Int :=
+  if s.startsWith "-" then (parseHexNat (s.drop 1).toString).map fun n => -(n : Int) else (parseHexNat s).map fun n => (n : Int)
+
+def mkCtx (e : Env) (wd : Nat) : Option MulCtx := do
+  let num := fun (k : String) => (e.kv.lookup k).bind String.toNat?
+  let width ← num "width"
+  let depth ← num "depth"
+  let fpbits ← num "fpbits"
+  let iv := fun (k : String) => ((e.kv.lookup k).bind parseHexInt').getD 0
+  some { c := e.c, n := e.n, g := e.g, endom := e.endom, beta := ((e.kv.lookup "beta").bind parseHexNat).getD 0,
+         v1 := (iv "v10", iv "v11", iv "v12"), v2 := (iv "v20", iv "v21", iv "v22"),
+         width := width, depth := depth, fpbits := fpbits, wd := wd }
+
+/-- the lattice rows of the GLV data annihilate G: v11·G + v12·ψ(G) = O, v21·G + v22·ψ(G) = O (hypothesis of `recGlv_congr`
+    with λ the eigenvalue of ψ) -/
+def checkGlvLattice (m : MulCtx) : List String :=
+  if !m.endom then [] else
+  match m.g with
+  | some (gx, gy) =>
+    let psiG : Point := some (m.beta * gx % m.c.p, gy)
+    let row := fun (a b : Int) => add m.c (mul m.c m.g a) (mul m.c psiG b) == none
+    (if row m.v1.2.1 m.v1.2.2 then [] else ["GLV row v1 does not annihilate G"]) ++
+    (if row m.v2.2.1 m.v2.2.2 then [] else ["GLV row v2 does not annihilate G"])
+  | none => []
+
+/-- consistency of what the library reports (full parameter checks are C18), plus the GLV lattice rows -/
+def checkParam (e : Env) : List String :=
+  checkParamBase e ++ (match mkCtx e 64 with
+    | some m => checkGlvLattice m
+    | none => [])   -- context lines of other harness files (sigpc_param) do not report the multiplication parameters
+
+def fmtJ (c : Curve) (j : Jac) : String := fmtPoint (toAffine c j)
+def ceilDiv (a b : Nat) : Nat := (a + b - 1) / b
+def emod (k : Int) (n : Nat) : Nat := (k % (n : Int)).toNat
+def negDigits (b : Bool) (ds : List Int) : List Int := if b then ds.map (fun d => -d) else ds
+
+/-- ep_mul_lwnaf / ep_mul (EP_MUL = LWNAF) after the early exit: Jacobian result or none = reported error -/
+def mLwnaf (m : MulCtx) (p : Jac) (k : Int) : Option Jac :=
+  let o := jops m.c
+  let K := emod k m.n
+  if m.endom then
+    let (k0, k1) := recGlv K m.n m.v1 m.v2
+    match recNaf (m.fpbits + 1) k0.natAbs m.width, recNaf (m.fpbits + 1) k1.natAbs m.width with
+    | some n0, some n1 => some (mulGlv o (jpsi m.c m.beta) p (2 ^ (m.width - 2)) (k0 < 0) (k1 < 0) n0 n1)
+    | _, _ => none
+  else
+    (recNaf (m.fpbits + 2) K m.width).map fun ds => mulSigned o (tabOdd o p (2 ^ (m.width - 2))) o.zero ds
+
+/-- ep_mul_fix_combs on the table of P (k ≠ 0) -/
+def mCombs (m : MulCtx) (tab : List Jac) (k : Int) : Jac :=
+  let o := jops m.c
+  let K := emod k m.n
+  let bitsN := bitLen m.n
+  if m.endom then
+    let l := ceilDiv bitsN (2 * m.depth)
+    let (k0, k1) := recGlv K m.n m.v1 m.v2
+    mulCombsEndom o (jpsi m.c m.beta) tab l m.depth k0.natAbs (k0 < 0) k1.natAbs (k1 < 0)
+  else mulCombsPlain o tab K (ceilDiv bitsN m.depth) m.depth
+
+def combsL (m : MulCtx) : Nat := if m.endom then ceilDiv (bitLen m.n) (2 * m.depth) else ceilDiv (bitLen m.n) m.depth
+
+def mNafDig (m : MulCtx) (p : Jac) (k : Nat) (cap : Nat) : Option Jac :=
+  (recNaf cap k 2).map fun ds => mulSigned (jops m.c) [p] Jac.inf ds
+
+/-- `epm`: none = no model for this variant; some "err" = the model predicts a reported error -/
+def modelMul (m : MulCtx) (v : String) (pt : Point) (k : Int) : Option String :=
+  let o := jops m.c
+  let c := m.c
+  let p := ofAffine pt
+  let w := m.width
+  let d := m.depth
+  let bitsN := bitLen m.n
+  let K := emod k m.n
+  let sgn := fun (r : Jac) => if k < 0 then o.neg r else r
+  let out := fun (r : Option Jac) => match r with
+    | some j => some (fmtJ c j)
+    | none => some "err"
+  let trivial := k == 0 || pt == none
+  if v == "basic" then
+    if trivial then some "inf"
+    else if bitLen k.natAbs ≤ m.wd then out ((mNafDig m p k.natAbs (m.wd + 1)).map sgn)
+    else out ((mNafDig m p k.natAbs (bitLen k.natAbs + 1)).map sgn)
+  else if v == "dig" then
+    if trivial then some "inf" else out (mNafDig m p k.natAbs (m.wd + 1))
+  else if v == "slide" then
+    if trivial then some "inf" else
+    out ((recSlw (m.fpbits + 1) K w).map fun win => mulSlide o (tabOdd o p (2 ^ (w - 1))) o.zero win)
+  else if v == "monty" then
+    if trivial then some "inf" else
+    let l := K + m.n
+    let l := if l.testBit bitsN then l else l + m.n
+    out (some (mulLadder o p ((List.range bitsN).reverse.map fun i => l.testBit i)))
+  else if v == "lwnaf" || v == "mul" then
+    if trivial then some "inf" else out (mLwnaf m p k)
+  else if v == "lwreg" then
+    if trivial then some "inf"
+    else if m.endom then
+      let (k0, k1) := recGlv K m.n m.v1 m.v2
+      let a0 := k0.natAbs
+      let a1 := k1.natAbs
+      match recReg (m.fpbits + 1) (a0 ||| 1) (bitsN >>> 1) w, recReg (m.fpbits + 1) (a1 ||| 1) (bitsN >>> 1) w with
+      | some r0, some r1 =>
+        out (some (mulRegGlv o (jpsi c m.beta) p (2 ^ (w - 2)) w (k0 < 0) (k1 < 0) (a0 % 2 == 0) (a1 % 2 == 0) r0 r1))
+      | _, _ => some "err"
+    else
+      let kk := k.natAbs % m.n
+      out ((recReg (ceilDiv bitsN (w - 1) + 1) (kk ||| 1) bitsN w).map fun reg =>
+        sgn (mulReg o (tabOdd o p (2 ^ (w - 2))) o.zero w reg (kk % 2 == 0) p))
+  else if v == "gen" then
+    if k == 0 then some "inf" else
+    out (some (mCombs m (tabCombs o (ofAffine m.g) (combsL m) d) k))
+  else if v == "fix_basic" then
+    if pt == none then some "err" else if k == 0 then some "inf" else
+    out (some (mulFixBasic o (tabPow2 o p bitsN) o.zero K))
+  else if v == "fix_combs" || v == "fix_" then
+    if pt == none then some "err" else if k == 0 then some "inf" else
+    out (some (mCombs m (tabCombs o p (combsL m) d) k))
+  else if v == "fix_combd" then
+    if pt == none then some "err" else if k == 0 then some "inf" else
+    let dd := ceilDiv bitsN d
+    let e := ceilDiv dd 2
+    out (some (mulCombd o (tabCombd o p dd e d) K dd e d))
+  else if v == "fix_lwnaf" then
+    if pt == none then some "err" else if k == 0 || K == 0 then some "inf" else
+    out ((recNaf (m.fpbits + 1) K d).map fun ds => mulSigned o (tabOdd o p (2 ^ (d - 2))) o.zero ds)
+  else none
+
+/-- ep_mul (= ep_mul_lwnaf) as a sub-routine, Jacobian result -/
+def mMul (m : MulCtx) (pt : Point) (k : Int) : Option Jac :=
+  if k == 0 || pt == none then some Jac.inf else mLwnaf m (ofAffine pt) k
+
+/-- ep_mul_sim_inter -/
+def mInter (m : MulCtx) (pt : Point) (k : Int) (qt : Point) (l : Int) : Option Jac :=
+  let o := jops m.c
+  let w := m.width
+  if k == 0 || pt == none then mMul m qt l
+  else if l == 0 || qt == none then mMul m pt k
+  else
+    let K := emod k m.n
+    let L := emod l m.n
+    let p := ofAffine pt
+    let q := ofAffine qt
+    let cap := m.fpbits + 1
+    let tl := 2 ^ (w - 2)
+    if m.endom then
+      let (k0, k1) := recGlv K m.n m.v1 m.v2
+      let (l0, l1) := recGlv L m.n m.v1 m.v2
+      match recNaf cap k0.natAbs w, recNaf cap k1.natAbs w, recNaf cap l0.natAbs w, recNaf cap l1.natAbs w with
+      | some n0, some n1, some n2, some n3 =>
+        some (simEndom o (jpsi m.c m.beta) (tabOdd o p tl) (tabOdd o q tl) (k0 < 0) (k1 < 0) (l0 < 0) (l1 < 0) n0 n1 n2 n3)
+      | _, _, _, _ => none
+    else
+      match recNaf cap K w, recNaf cap L w with
+      | some n0, some n1 => some (simInter o (tabOdd o p tl) (tabOdd o q tl) o.zero n0 n1)
+      | _, _ => none
+
+/-- `eps` -/
+def modelSim (m : MulCtx) (v : String) (pt : Point) (k : Int) (qt : Point) (l : Int) : Option String :=
+  let o := jops m.c
+  let c := m.c
+  let out := fun (r : Option Jac) => match r with
+    | some j => some (fmtJ c j)
+    | none => some "err"
+  let K := emod k m.n
+  let L := emod l m.n
+  let p := ofAffine pt
+  let q := ofAffine qt
+  if v == "basic" then
+    match mMul m qt l, mMul m pt k with
+    | some a, some b => out (some (o.add a b))
+    | _, _ => some "err"
+  else if v == "inter" || v == "sim" then out (mInter m pt k qt l)
+  else if v == "gen" then
+    if k == 0 then out (mMul m qt l)
+    else if l == 0 || qt == none then modelMul m "gen" m.g k
+    else out (mInter m m.g (K : Int) qt (L : Int))
+  else if v == "trick" then
+    if k == 0 || pt == none then out (mMul m qt l)
+    else if l == 0 || qt == none then out (mMul m pt k)
+    else
+      let w := m.width / 2
+      let tab := tabTrick o p q w
+      -- ep_norm_sim over t[2 …]: an identity among them is a reported error (known finding F24)
+      if (tab.drop 2).any (jIsInf c) then some "err" else
+      let cap := ceilDiv (m.fpbits + 1) w
+      match recWin cap K w, recWin cap L w with
+      | some w0, some w1 => out (some (simTrick o tab o.zero w w0 w1))
+      | _, _ => some "err"
+  else if v == "joint" then
+    if k == 0 || pt == none then out (mMul m qt l)
+    else if l == 0 || qt == none then out (mMul m pt k)
+    else
+      if jIsInf c (o.add p q) || jIsInf c (o.sub p q) then some "err" else
+      match recJsf (2 * (m.fpbits + 1)) K L with
+      | some (j0, j1) => out (some (simJoint o p q j0 j1))
+      | none => some "err"
+  else none
+
+/-- `epl` (ep_mul_sim_lot) -/
+def modelLot (m : MulCtx) (pks : List (Point × Int)) : Option String :=
+  let o := jops m.c
+  let c := m.c
+  let n := pks.length
+  if n == 0 then some "inf" else
+  let psi := jpsi c m.beta
+  if m.endom then
+    let cap := m.fpbits + 1
+    let subs := pks.map fun (pk : Point × Int) => (ofAffine pk.1, recGlv (emod pk.2 m.n) m.n m.v1 m.v2)
+    if n ≤ 10 then
+      let pts := subs.flatMap fun (s : Jac × (Int × Int)) =>
+        [if s.2.1 < 0 then o.neg s.1 else s.1, if s.2.2 < 0 then o.neg (psi s.1) else psi s.1]
+      let nafs := subs.flatMap fun (s : Jac × (Int × Int)) => [recNaf cap s.2.1.natAbs 2, recNaf cap s.2.2.natAbs 2]
+      if nafs.any Option.isNone then some "err" else
+      let nafs := nafs.map fun x => x.getD []
+      let l := (nafs.map List.length).foldl max 0
+      some (fmtJ c (simLotNaf o pts nafs l))
+    else
+      let w := max 2 (bitLen n - 2)
+      let cc := 2 ^ (w - 2)
+      let nafs := subs.map fun (s : Jac × (Int × Int)) =>
+        ((recNaf cap s.2.1.natAbs w).map (negDigits (s.2.1 < 0)), (recNaf cap s.2.2.natAbs w).map (negDigits (s.2.2 < 0)))
+      if nafs.any (fun x => x.1.isNone || x.2.isNone) then some "err" else
+      let nafs := nafs.map fun x => (x.1.getD [], x.2.getD [])
+      let l := (nafs.map fun x => max x.1.length x.2.length).foldl max 0
+      some (fmtJ c (simLotBucket o psi (subs.map (·.1)) nafs cc l))
+  else
+    let l := (pks.map fun (pk : Point × Int) => bitLen pk.2.natAbs + 1).foldl max 0
+    let pts := pks.map fun (pk : Point × Int) => if pk.2 < 0 then o.neg (ofAffine pk.1) else ofAffine pk.1
+    let nafs := pks.map fun (pk : Point × Int) => recNaf l pk.2.natAbs 2
+    if nafs.any Option.isNone then some "err" else
+    some (fmtJ c (simLotNaf o pts (nafs.map fun x => x.getD []) l))
+
+/-- `eptab`: the precomputation tables -/
+def modelTab (m : MulCtx) (v : String) (pt : Point) : Option (List Jac × List Nat) :=
+  let o := jops m.c
+  let p := ofAffine pt
+  let d := m.depth
+  let bitsN := bitLen m.n
+  let cv := fun (l : Nat) (cidx : Nat) => ((List.range d).map fun j => ((cidx >>> j) % 2) * 2 ^ (j * l)).foldl (· + ·) 0
+  if v == "basic" then some (tabPow2 o p bitsN, (List.range bitsN).map fun i => 2 ^ i)
+  else if v == "combs" then
+    let l := combsL m
+    some (tabCombs o p l d, (List.range (2 ^ d)).map (cv l))
+  else if v == "combd" then
+    let dd := ceilDiv bitsN d
+    let e := ceilDiv dd 2
+    some (tabCombd o p dd e d, ((List.range (2 ^ d)).map (cv dd)) ++ ((List.range (2 ^ d)).map fun i => 2 ^ e * cv dd i))
+  else if v == "lwnaf" then some (tabOdd o p (2 ^ (d - 2)), (List.range (2 ^ (d - 2))).map fun i => 2 * i + 1)
+  else none
+
+/-- `epfixt`: the fixed-base loops on an arbitrary table; model = the loop, spec = the closed form Σ_i 2^i·(table entries selected
+    by column / digit i) evaluated term by term -/
+def modelFixT (m : MulCtx) (v : String) (k : Int) (tabP : List Point) : Option (String × String) :=
+  let o := jops m.c
+  let c := m.c
+  let d := m.depth
+  let bitsN := bitLen m.n
+  let K := emod k m.n
+  let tab := tabP.map ofAffine
+  let scale := fun (i : Nat) (x : Jac) => Relic.Spec.CurveFast.jmulNat c x (2 ^ i)
+  let sum := fun (l : List Jac) => l.foldl o.add o.zero
+  let psi := jpsi c m.beta
+  if k == 0 then some ("inf", "inf") else
+  if v == "combs" then
+    let l := combsL m
+    if m.endom then
+      let (k0, k1) := recGlv K m.n m.v1 m.v2
+      let mdl := mulCombsEndom o psi tab l d k0.natAbs (k0 < 0) k1.natAbs (k1 < 0)
+      let sg := fun (b : Bool) (x : Jac) => if b then o.neg x else x
+      let top := tab.getD (2 ^ (d - 1)) o.zero
+      let spec := sum ((List.range l).map fun i =>
+        -- a zero column selects nothing (the code never reads t[0])
+        let e0 := combCol k0.natAbs l d i
+        let e1 := combCol k1.natAbs l d i
+        scale i (o.add (if e0 = 0 then o.zero else sg (k0 < 0) (tab.getD e0 o.zero)) (if e1 = 0 then o.zero else sg (k1 < 0) (psi (tab.getD e1 o.zero)))))
+      let spec := o.add spec (scale l (o.add (if bitLen k0.natAbs > d * l then top else o.zero) (if bitLen k1.natAbs > d * l then psi top else o.zero)))
+      some (fmtJ c mdl, fmtJ c spec)
+    else
+      let mdl := mulCombsPlain o tab K l d
+      -- t[0] is read for the top column only
+      let spec := sum ((List.range l).map fun i =>
+        let e0 := combCol K l d i
+        scale i (if e0 = 0 && i + 1 != l then o.zero else tab.getD e0 o.zero))
+      some (fmtJ c mdl, fmtJ c spec)
+  else if v == "combd" then
+    let dd := ceilDiv bitsN d
+    let e := ceilDiv dd 2
+    let mdl := mulCombd o tab K dd e d
+    let spec := sum ((List.range e).map fun i =>
+      scale i (o.add (tab.getD (combCol K dd d i) o.zero) (tab.getD (2 ^ d + (if i + e < dd then combCol K dd d (i + e) else 0)) o.zero)))
+    some (fmtJ c mdl, fmtJ c spec)
+  else if v == "lwnaf" then
+    if K == 0 then some ("inf", "inf") else
+    match recNaf (m.fpbits + 1) K d with
+    | none => some ("err", "err")
+    | some ds =>
+      let mdl := mulSigned o tab o.zero ds
+      let spec := sum ((List.range ds.length).map fun i =>
+        let dg := ds.getD i 0
+        scale i (if dg > 0 then tab.getD (dg.toNat / 2) o.zero else if dg < 0 then o.neg (tab.getD ((-dg).toNat / 2) o.zero) else o.zero))
+      some (fmtJ c mdl, fmtJ c spec)
+  else none
+
+end mulModel
 
 partial def handle (e : Env) (w : Nat) (op : String) (args : List String) (got : String) : Option Verdict :=
   let c := e.c
@@ -136,14 +471,20 @@ partial def handle (e : Env) (w : Nat) (op : String) (args : List String) (got :
     let k ← pI k
     let p := if v == "gen" then e.g else p0
     let k := if v == "dig" then ((k.natAbs % 2 ^ w : Nat) : Int) else k
-    cls (fmtPoint (mul c p k))
+    let spec := fmtPoint (mul c p k)
+    match (mkCtx e w).bind fun m => modelMul m v p k with
+    | some mdl => some { model := mdl, spec := [spec], tags := ["model.mul." ++ v ++ (if e.endom then ".endom" else ".plain")] ++ (if mdl == "err" then ["model.err"] else []) }
+    | none => cls spec
   | "eps", [v, p, k, q, m] => do
     let p0 ← parsePoint p
     let q ← parsePoint q
     let k ← pI k
     let m ← pI m
     let p := if v == "gen" then e.g else p0
-    cls (fmtPoint (add c (mul c p k) (mul c q m)))
+    let spec := fmtPoint (add c (mul c p k) (mul c q m))
+    match (mkCtx e w).bind fun mc => modelSim mc v p k q m with
+    | some mdl => some { model := mdl, spec := [spec], tags := ["model.sim." ++ v ++ (if e.endom then ".endom" else ".plain")] ++ (if mdl == "err" then ["model.err"] else []) }
+    | none => cls spec
   | "epla", _ :: rest => handle e w "epl" rest got
   | "epda", _ :: rest => handle e w "epd" rest got
   | "epl", n :: rest => do
@@ -157,7 +498,19 @@ partial def handle (e : Env) (w : Nat) (op : String) (args : List String) (got :
         go i l (add c acc (mul c p k))
       | _, _ => none
     let r ← go n rest none
-    cls (fmtPoint r)
+    let rec pairs (i : Nat) (l : List String) : Option (List (Point × Int)) :=
+      match i, l with
+      | 0, _ => some []
+      | i + 1, p :: k :: l => do
+        let p ← parsePoint p
+        let k ← pI k
+        let t ← pairs i l
+        some ((p, k) :: t)
+      | _, _ => none
+    let pks ← pairs n rest
+    match (mkCtx e w).bind fun mc => modelLot mc pks with
+    | some mdl => some { model := mdl, spec := [fmtPoint r], tags := ["model.sim_lot" ++ (if e.endom then (if n ≤ 10 then ".endom.naf" else ".endom.bucket") else ".plain")] }
+    | none => cls (fmtPoint r)
   | "epd", n :: rest => do
     let n ← n.toNat?
     let rec goD (i : Nat) (l : List String) (acc : Point) : Option Point :=
@@ -169,7 +522,38 @@ partial def handle (e : Env) (w : Nat) (op : String) (args : List String) (got :
         goD i l (add c acc (mul c p ((k.natAbs % 2 ^ w : Nat) : Int)))
       | _, _ => none
     let r ← goD n rest none
-    cls (fmtPoint r)
+    let rec pairsD (i : Nat) (l : List String) : Option (List (Point × Nat)) :=
+      match i, l with
+      | 0, _ => some []
+      | i + 1, p :: k :: l => do
+        let p ← parsePoint p
+        let k ← pI k
+        let t ← pairsD i l
+        some ((p, k.natAbs % 2 ^ w) :: t)
+      | _, _ => none
+    let pks ← pairsD n rest
+    let mx := (pks.map fun (pk : Point × Nat) => Relic.Model.Rec.bitLen pk.2).foldl max 0
+    let mdl := fmtJ c (Relic.Model.EpMul.simDig (jops c) (pks.map fun pk => Relic.Spec.CurveFast.ofAffine pk.1) (pks.map (·.2)) mx)
+    some { model := mdl, spec := [fmtPoint r], tags := ["model.sim_dig"] }
+  | "eptab", [v, p] => do
+    let pt ← parsePoint p
+    let mc ← mkCtx e w
+    let (tab, mults) ← modelTab mc v pt
+    if pt == none then
+      -- known finding F22: the identity as fixed base is a reported error
+      some { model := "err", spec := [String.intercalate ";" (mults.map fun _ => "inf")], tags := ["model.tab." ++ v, "model.err"] }
+    else
+      let mdl := String.intercalate ";" (tab.map (fmtJ c))
+      let spec := String.intercalate ";" (mults.map fun k => fmtPoint (Relic.Spec.CurveFast.mulNat c pt k))
+      some { model := mdl, spec := [spec], tags := ["model.tab." ++ v ++ (if e.endom then ".endom" else ".plain")] }
+  | "epfixt", v :: k :: tab => do
+    let k ← pI k
+    let tabP ← (match tab with
+      | [] => []
+      | t :: _ => t.splitOn ";").mapM parsePoint
+    let mc ← mkCtx e w
+    let (mdl, spec) ← modelFixT mc v k tabP
+    some { model := mdl, spec := [spec], tags := ["model.fixt." ++ v ++ (if e.endom then ".endom" else ".plain")] }
   | "ep_write_bin", [len, pack, p] => do
     let len ← len.toNat?
     let p ← parsePoint p
